@@ -12,6 +12,8 @@
 
 #include "ImathNamespace.h"
 
+#include <cmath>
+
 IMATH_INTERNAL_NAMESPACE_HEADER_ENTER
 
 /// @cond Doxygen_Suppress
@@ -167,7 +169,7 @@ Matrix44<T> constexpr nextFrame (
         else if (dot < -1.0)
             dot = -1.0;
 
-        r = acosf (dot);
+        r = std::acos (dot);
         a = ti.cross (tj);
     }
 
